@@ -450,6 +450,11 @@ class AbsEval:
             return frozenset([('set', self._elems(args[0]) if args else frozenset())])
         if name in ('collections.Counter',):
             return frozenset([('counter',)])
+        # operator.mul / operator.add ... as the binary function of a reduce: the same as the two-argument lambda
+        _OPS = {'operator.mul': '*', 'operator.add': '+', 'operator.sub': '-', 'operator.truediv': '/'}
+        if name == 'functools.reduce' and len(c.args) >= 2 and u(c.args[0]) in _OPS:
+            lam = ast.parse('lambda _x, _y: _x %s _y' % _OPS[u(c.args[0])], mode='eval').body
+            c = ast.copy_location(ast.Call(func=c.func, args=[lam] + list(c.args[1:]), keywords=c.keywords), c)
         if name == 'functools.reduce' and len(c.args) >= 2 and isinstance(c.args[0], ast.Lambda):
             el = self._elems(args[1])
             acc = el
